@@ -295,7 +295,8 @@ def run_unit(spec_path: str, tier: str, seed: int, kf_omit: set, do_vacuity: boo
         R.wall += vdt
         vf, vhard, vrl = classify(vdiags, vmeta, os.path.basename(vpath))
         reached = set(x["fid"] for x in vf if x["fid"] and x["message"].startswith("assertion failed"))
-        for fid in g.functions:
+        for fid, finfo in g.functions.items():
+            if finfo.get("assumed"): continue
             R.vacuity[fid] = fid in reached
         missing = [f for f, ok in R.vacuity.items() if not ok]
         if vhard or not vres.get("verification-results"):
